@@ -136,10 +136,15 @@ CLAIMED = {
    note=TB + "; sizes 2x1 (all storages), 3x1 sparse quick; 2x2, 3x2, 3x3 thorough; d >= 1e-6, lambda/Delta in [1e-6,1e6]; the 1e-8 backward error, cond<=1e8 agreement and sizes "
         "up to 40x40 are floating-point statements outside the claim.",
    ref="DESIGN 4/C10", technique="symbolic execution of LLVM IR (Eigen LDLT incl. pivoting) + SMT"),
+ "C14": dict(
+   text="PARTIAL bounded symbolic check: the real fit_spline_1d (sparse assembly + Eigen::SparseLU for PiecewiseLinear / FixedDerCubic<1|2>, SimplicialLDLT on the KKT system for "
+        "MinDerivative<5,3,3>) is executed symbolically with symbolic sampling intervals dt_i in [1e-2,1e2] (any ratio) and increments dx_i; every pivot decision is a path; z3 decides "
+        "on each path that the returned Bernstein coefficients satisfy every interpolation, derivative-continuity and boundary equation written from the specification.",
+   note=TB + "; N<=3 segments (interpolating specs), N=1 for MinDerivative quick; NOT encoded: fit_spline on groups, fit_bspline, dubins_curve, reparameterize_spline; the MinDerivative "
+        "defect named in the property is a floating-point conditioning failure of the KKT solve and is invisible to exact arithmetic (layer R).",
+   ref="DESIGN 13.6", technique="symbolic execution of LLVM IR (sparse LU/LDLT, every pivot order a path) + SMT"),
 }
-NA = {"C14": "curve construction is not encoded: fit_spline(_1d)/fit_bspline solve sparse systems (SparseLU, SimplicialLDLT on a KKT matrix) whose symbolic execution is beyond reach "
-             "(symx diverges from the native run inside Eigen::SparseLU; root cause not found in the time available; MinDerivative's KKT solution exceeds the normal-form budget and its "
-             "reported defect is a floating-point conditioning failure invisible to layer R anyway), dubins_curve and reparameterize_spline (2-D LP) were not reached; see DESIGN 9"}
+NA = {}
 checks = []
 for p in props:
     pid = p["id"]
